@@ -617,15 +617,16 @@ func renderNode(w io.Writer, node *treeNode, prefix string, isLast bool, isRoot 
 	}
 }
 
-// abbreviate truncates a string to maxLen, adding "…" if truncated.
+// abbreviate truncates a string to maxLen runes, adding "…" if truncated.
 func abbreviate(s string, maxLen int) string {
-	if len(s) <= maxLen {
+	runes := []rune(s)
+	if len(runes) <= maxLen {
 		return s
 	}
 	if maxLen <= 1 {
 		return "…"
 	}
-	return s[:maxLen-1] + "…"
+	return string(runes[:maxLen-1]) + "…"
 }
 
 // stateIcon returns the appropriate icon for a task's state.
